@@ -8,12 +8,18 @@
    operations with instructions from any controller, every vehicle that is charging or queueing at a station is at that
    station's location and every vehicle parked or charging at a base is at that base's location (stations and bases keep
    their position; a stationary activity never moves the vehicle; the activity changes only through exit/enter).
-   PARTIAL: "a travelling vehicle's planned route always starts at its current position" over histories needs connected routes
-   (route_corr, like HIVE's route_cooresponds_with_entities, checks the two ends only) and is decided by correspondence +
-   monitor c07_location. *)
+   And (C07_routes_over_histories): every travelling vehicle's planned route is a connected walk (each link starts where the
+   previous one ended) from the vehicle's CURRENT place to the place of the entity it was sent to (station, base, the request
+   it is assigned to), so when the route is exhausted the vehicle is at that entity (C07_arrived) — given that the road
+   network's router answers a query (a, b) with a walk from a to b (C13 for the OSM network; C07_haversine_router for the
+   haversine network) and that the step length is positive.  Rests on C07_traverse_keeps_walk: routetraversal.traverse turns
+   a walk from g to h into a driven part and a remaining part that together are a walk from g to h, for every link table.
+   (For ServicingTrip the end of the route is not tied to the request's destination by this invariant; drop-off is refused
+   elsewhere: C07_trip_ends_at_destination.) *)
 From Hive.Base Require Import Prelude.
 From Hive.Model Require Import Types KernelBase SimOps States Step.
-From Hive.Proofs Require Import Guards VehFrame Macro CountInv PlaceInv.
+From Hive.Proofs Require Import Guards VehFrame Macro CountInv PlaceInv Walk RouteInv.
+From Hive.Model Require Import Harness.
 
 Theorem C07_enter_checks_location : forall env vid st s s', vs_enter env (vid, st) s = Ok s' ->
   exists v st', find vid (vehicles s) = Some v /\ guard s v st' /\
@@ -42,7 +48,29 @@ Proof. exact places_over_histories. Qed.
 Theorem C07_initial_state : forall s, skeys (stations s) -> bkeys (bases s) ->
   (forall k v, find k (vehicles s) = Some v -> exists d, v_state v = Idle d) -> Inv_place s.
 Proof. exact Inv_place_initial. Qed.
-Print Assumptions C07_places_over_histories. Print Assumptions C07_initial_state.
+Theorem C07_traverse_keeps_walk : forall env g route dur tr h, walk g route = Some h -> traverse env route dur = Ok tr ->
+  rt_exp tr <> [] -> walk g (rt_exp tr ++ rt_rem tr) = Some h.
+Proof. exact traverse_walk. Qed.
+Theorem C07_routes_over_histories : forall env, (forall a b, walk (p_geoid a) (e_route env a b) = Some (p_geoid b)) ->
+  forall ops s0, vkeys s0 -> Inv_route s0 -> Forall op_ok ops ->
+  vkeys (fold_left (step_op env) ops s0) /\ Inv_route (fold_left (step_op env) ops s0).
+Proof. exact route_invariant. Qed.
+Theorem C07_arrived : forall s v, on_route s v ->
+  match v_state v with
+  | DispatchStation sid _ [] => exists x, find sid (stations s) = Some x /\ v_geoid v = s_geoid x
+  | DispatchBase bid [] => exists b, find bid (bases s) = Some b /\ v_geoid v = b_geoid b
+  | DispatchTrip rid [] => forall q, find rid (requests s) = Some q -> r_disp q = Some (v_id v) -> v_geoid v = r_geoid q
+  | _ => True
+  end.
+Proof. exact arrived. Qed.
+Theorem C07_routes_initial_state : forall s, (0 < dt s)%Z -> skeys (stations s) -> bkeys (bases s) ->
+  (forall k v, find k (vehicles s) = Some v -> state_route (v_state v) = None) -> Inv_route s.
+Proof. exact Inv_route_initial. Qed.
+Theorem C07_haversine_router : forall parents gctab midtab mechs cancel fleets scheds a b,
+  walk (p_geoid a) (e_route (mk_hav_env parents gctab midtab mechs cancel fleets scheds) a b) = Some (p_geoid b).
+Proof. exact hav_router_ok. Qed.
+Print Assumptions C07_places_over_histories. Print Assumptions C07_initial_state. Print Assumptions C07_traverse_keeps_walk.
+Print Assumptions C07_routes_over_histories. Print Assumptions C07_arrived. Print Assumptions C07_routes_initial_state. Print Assumptions C07_haversine_router.
 
 Print Assumptions C07_enter_checks_location.
 Print Assumptions C07_route_corr_meaning.
